@@ -154,6 +154,8 @@ FALLBACK = {
     "attrsWrapRebinds": "[]",
     "defineWrapRebinds": "[]",
     "makeClassDictAliased": "false",
+    # C16: outermost functions / Class.method of _make.py and _next_gen.py whose code reads an attribute of `_config`
+    "configReaders": '["validate"]',
 }
 
 TYPES = {
@@ -172,6 +174,7 @@ TYPES = {
     "c17InitFixed": "List String", "c17EvalMergeOrder": "List String", "c17InitMergeOrder": "List String",
     "c17GetattrFixed": "List String", "c17GetattrMergeOrder": "List String",
     "attrsWrapRebinds": "List String", "defineWrapRebinds": "List String", "makeClassDictAliased": "Bool",
+    "configReaders": "List String",
 }
 
 
@@ -437,6 +440,25 @@ def _c17_getattr_globals(mk: Src):
     return lean_list([lean_str(k) for k in keys]), lean_list([lean_str(o) for o in dedup])
 
 
+def _config_readers(srcs) -> str:
+    """C16: which functions read the process-global configuration (`_config.<attr>` as an expression, not inside
+    the TEXT of a generated method): named by their outermost def, `Class.method` for methods."""
+    names = []
+    for src in srcs:
+        def visit(body, prefix):
+            for n in body:
+                if isinstance(n, ast.ClassDef):
+                    visit(n.body, prefix + n.name + ".")
+                elif isinstance(n, (ast.FunctionDef, ast.AsyncFunctionDef)):
+                    for m in ast.walk(n):
+                        if isinstance(m, ast.Attribute) and isinstance(m.value, ast.Name) and m.value.id == "_config":
+                            if prefix + n.name not in names:
+                                names.append(prefix + n.name)
+                            break
+        visit(src.tree.body, "")
+    return lean_list([lean_str(x) for x in names])
+
+
 def extract() -> tuple[dict, list]:
     vals, broken = {}, []
 
@@ -492,6 +514,7 @@ def extract() -> tuple[dict, list]:
     item("attrsWrapRebinds", lambda: _rebinds(src("_make.py"), "attrs"))
     item("defineWrapRebinds", lambda: _rebinds(src("_next_gen.py"), "define"))
     item("makeClassDictAliased", lambda: _make_class_dict_aliased(src("_make.py")))
+    item("configReaders", lambda: _config_readers([src("_make.py"), src("_next_gen.py")]))
     return vals, broken
 
 
